@@ -281,6 +281,7 @@ def check(ctx, run):  # noqa: F811
     from .c03 import containers
     containers(ctx, run, rule="C02.R5")
     option_classes_use_the_mixin(ctx, run, "C02.R1")
+    feature_names_rule(ctx, run)
     no_memoised_state(ctx, run, "C02.R6", "a value remembered from an earlier pass reaches a later one: the hedge at step t can then depend on prices after t")
     # R7 the recurrent input: at step 0 the previous hedge is zero (reset before the loop), afterwards the output of step i-1 of THIS pass -
     # otherwise the first position depends on the last step of whatever the hedger evaluated before (facts C03.R3c-e, re-stated here)
@@ -349,3 +350,70 @@ def no_memoised_state(ctx, run, rule, why):
         run.oblige(rule, lab, not st, "; ".join(st))
         if st:
             run.fail(Finding(rule, fi.qualname, lab + ": " + "; ".join(st), why, file=str(prog.modules[fi.module].path), line=fi.node.lineno))
+
+
+def _inst(interp, q):
+    from ..interp import ClassRef
+    interp.reset([])
+    return interp.instantiate(ClassRef(q), [], {}, None)
+
+
+def feature_names_rule(ctx, run):
+    """R8: a feature requested BY NAME is the feature documented under that name: for every class in the FEATURES registration list the key it
+    is registered under (`str(cls())`, interpreted) equals the name in its docstring, keys are unique, and the lookup chain
+    get_feature(name) -> FeatureFactory.get_instance -> get_class returns the class stored under exactly that key, constructed with the
+    caller's keyword arguments (the hedger's `inputs=["log_moneyness", ...]` goes through it)."""
+    import ast
+    import re
+    prog, interp = ctx.prog, ctx.interp
+    fmod = prog.modules.get("pfhedge.features.features")
+    if fmod is None or "FEATURES" not in fmod.globals:
+        raise AnalysisError("anchor vanished: pfhedge.features.features.FEATURES")
+    lst = fmod.globals["FEATURES"]
+    if not isinstance(lst, (ast.List, ast.Tuple)):
+        raise AnalysisError("FEATURES is not a literal list")
+    run.require("C02.R8", 12)
+    seen = {}
+    for elt in lst.elts:
+        cname = ast.unparse(elt)
+        q = "pfhedge.features.features." + cname
+        ci = prog.classes.get(q)
+        if ci is None:
+            raise AnalysisError(f"FEATURES entry {cname} is not a class of pfhedge.features.features")
+        doc = ast.get_docstring(ci.node) or ""
+        m = re.search(r"Name:\s*``'([^']+)'``", doc)
+        documented = m.group(1) if m else None
+        strfn = prog.lookup_method(q, "__str__")
+        try:
+            inst = _inst(interp, q)
+            vals = {r["value"] for r in interp.explore(strfn, [], {}, self_obj=inst) if not r["raises"]} if strfn else set()
+        except Exception as ex:  # noqa: BLE001 - any failure to interpret the constructor is an analysis error below
+            raise AnalysisError(f"{cname}: cannot interpret str({cname}()): {ex}")
+        got = next(iter(vals)) if len(vals) == 1 else None
+        problems = []
+        if not isinstance(got, str) or got == "<str>":
+            problems.append(f"registered name is not a constant string ({got!r})")
+        elif documented is not None and got != documented:
+            problems.append(f"registered as {got!r}, documented as {documented!r}")
+        if isinstance(got, str) and got in seen:
+            problems.append(f"name {got!r} is also registered for {seen[got]}")
+        seen.setdefault(got, cname)
+        run.oblige("C02.R8", f"{cname} is registered under its documented name", not problems, "; ".join(problems) or f"{got!r}")
+        if problems:
+            run.fail(Finding("C02.R8", q, "; ".join(problems), "a feature looked up by name is not the documented one: the hedger is fed another quantity than the one asked for",
+                             file=str(prog.modules[ci.module].path), line=ci.node.lineno))
+    # the lookup chain
+    G = "pfhedge.features._getter."
+    gc, gi, gf = prog.functions.get(G + "FeatureFactory.get_class"), prog.functions.get(G + "FeatureFactory.get_instance"), prog.functions.get(G + "get_feature")
+    if gc is None or gi is None or gf is None:
+        raise AnalysisError("anchor vanished: FeatureFactory.get_class / get_instance / get_feature")
+    from ..interp import ClassRef
+    fac = Obj(G + "FeatureFactory", "factory", {"_features": {"alpha": ClassRef("pfhedge.features.features.Moneyness"), "beta": ClassRef("pfhedge.features.features.Variance")}})
+    problems = []
+    for key, want in (("alpha", "Moneyness"), ("beta", "Variance")):
+        vals = [r["value"] for r in interp.explore(gc, [key], {}, self_obj=fac) if not r["raises"]]
+        if not (len(vals) == 1 and isinstance(vals[0], ClassRef) and vals[0].qualname.endswith("." + want)):
+            problems.append(f"get_class({key!r}) returns {vals}")
+    run.oblige("C02.R8", "FeatureFactory.get_class returns the class stored under the requested key", not problems, "; ".join(problems))
+    if problems:
+        run.fail(Finding("C02.R8", gc.qualname, "; ".join(problems)[:300], "the name lookup does not return the class registered under that name", file=str(prog.modules[gc.module].path), line=gc.node.lineno))
